@@ -172,11 +172,23 @@ def radix_parser_role(facts, f):
     return out
 
 
+def trimmer_role(facts, f):
+    """Hand-written trimming helpers: private `&str → &str` functions with loops that the conversion calls.  They are
+    not inlined into the conversion's view (its decision paths are read with the helper's result as the trimmed text)."""
+    out = []
+    for k in sorted(facts.reach([f.key])):
+        it = facts.items.get(k, {})
+        b = facts.body(k)
+        if k != f.key and b is not None and b.kind == "fn" and it.get("inputs") == ["&str"] and it.get("output") == "&str" and b.back_edges():
+            out.append(k)
+    return out
+
+
 def conversion_view(facts, f):
     """The conversion with its private helpers (other than the digit parser) inlined at their call sites
     (rules/inline.py): splitting the conversion into helpers changes neither what it computes nor this view."""
     from . import inline
-    stop = set(radix_parser_role(facts, f))
+    stop = set(radix_parser_role(facts, f)) | set(trimmer_role(facts, f))
     try:
         cands = set(inline.candidates(facts.path))
     except Exception:
@@ -209,6 +221,23 @@ def conversion_view(facts, f):
     return (v, fv) if fv is not None else (facts, f)
 
 
+def whitespace_set(ctx, facts, pred, clause, cfg):
+    """The set a white-space predicate accepts = ECMAScript WhiteSpace ∪ LineTerminator."""
+    cs = table_charset(facts, pred)
+    if cs is None:
+        cs = charset_of(pred)
+    if isinstance(cs, tuple) and cs and cs[0] == "calls":
+        if re.search(r"^std::char::methods::<impl char>::is_\w+$", cs[1]):
+            ctx.fail(clause + ".whitespace-set", "delegates to %s" % cs[1], "the white-space predicate delegates to %s — not the ECMAScript StrWhiteSpaceChar set (e.g. char::is_whitespace also accepts U+0085 and rejects U+FEFF)" % cs[1], where=pred.where(), fn=pred.key)
+        else:
+            ctx.unread(clause + ".whitespace-set", "predicate (%s)" % cfg, "the white-space predicate is neither a comparison chain nor a scan of a constant table (it calls %s): the set it accepts is not read" % cs[1], where=pred.where(), fn=pred.key)
+    else:
+        want = iv_norm(ES_WS)
+        ctx.check(cs == want, clause + ".whitespace-set", "trimmed characters = ECMAScript WhiteSpace ∪ LineTerminator (%s)" % cfg,
+                  "the white-space predicate accepts {%s}; ECMAScript's set is {%s}" % (fmt_set(cs), fmt_set(want)), where=pred.where(), fn=pred.key, nontrivial=True,
+                  sample={"accepted": fmt_set(cs)})
+
+
 def check(ctx, facts, cfg, clause="A3"):
     """Clauses on the shared string→number conversion. Returns the function body."""
     f0 = find_str_to_number(facts)
@@ -239,17 +268,57 @@ def check(ctx, facts, cfg, clause="A3"):
                 if over_chars and edge_dominates(b, sb, edge, bi) and is_all:
                     clos = strip_refs(e[2][1])
                     if clos[0] == "agg" and clos[1].get("agg") == "Closure":
-                        alphabet = closure_alphabet(facts.body(clos[1]["closure"]))
+                        # the set the closure accepts, read on its path summaries (any spelling of the test); the
+                        # older syntactic reading only when that does not read it
+                        ivs_ = predicate_set(facts.body(clos[1]["closure"]), 2)
+                        if ivs_ is not None and sum(hi_ - lo_ + 1 for lo_, hi_ in ivs_) <= 4096:
+                            alphabet = {chr(c_) for lo_, hi_ in ivs_ for c_ in range(lo_, hi_ + 1)}
+                        elif ivs_ is not None:
+                            alphabet = ("large", fmt_set(ivs_[:6]))
+                        else:
+                            alphabet = closure_alphabet(facts.body(clos[1]["closure"]))
                         gate_ok = True
+                        gate_at = (b, sb)
         ctx.check(gate_ok, clause + ".alphabet-gate", "Rust's float parser only sees strings that passed a character-set test (%s)" % cfg,
                   "f64::from_str is applied to a string whose characters were not all tested against a fixed set: Rust's grammar also accepts inf / infinity / nan in any case", where=b.where(bi), fn=b.key, nontrivial=True)
-    if alphabet is not None:
+    if isinstance(alphabet, tuple):
+        ctx.fail(clause + ".alphabet", "admits %s…" % alphabet[1][:40], "characters admitted to the float parser: {%s, …} (expected digits and + - . e E)" % alphabet[1], where=loc, fn=f.key)
+    elif alphabet is None and gate_ok:
+        ctx.unread(clause + ".alphabet", "alphabet (%s)" % cfg, "the character test in front of the float parser was not read as a set of characters", where=loc, fn=f.key)
+    elif alphabet is not None:
         want = set("0123456789+-.eE")
         ctx.check(alphabet == want, clause + ".alphabet", "the admitted alphabet is the decimal-literal characters (%s)" % cfg,
                   "characters admitted to the float parser: %s (expected digits and + - . e E)" % "".join(sorted(alphabet - want)) if alphabet else "?", where=loc, fn=f.key, nontrivial=True, sample={"alphabet": "".join(sorted(alphabet))})
     # ---- trimming with the ES white-space set
     trims = [(bi, t) for bi, t in f.calls() if (callee_path(t) or "").startswith("core::str::<impl str>::trim")]
-    ctx.check(len(trims) == 1, clause + ".trim", "surrounding white space is trimmed once (%s)" % cfg, "%d trim calls" % len(trims), where=loc, fn=f.key)
+    trimmers = set(trimmer_role(facts, f))
+    own = [(bi, t) for bi, t in f.calls() if callee_of(t) and callee_of(t).get("key") in trimmers]
+    if own and not trims:
+        # a hand-written trimming loop: which characters it removes is read (the predicates it applies to the
+        # characters it takes off either end); that it removes exactly the longest prefix and suffix is not
+        for bi, t in own[:1]:
+            tb = facts.body(callee_of(t)["key"])
+            preds = {}
+            for bi2, t2 in tb.calls():
+                c2 = callee_of(t2)
+                if c2 and c2.get("local") and facts.items.get(c2.get("key"), {}).get("inputs") == ["char"] and facts.items[c2["key"]].get("output") == "bool":
+                    preds[c2["key"]] = facts.body(c2["key"])
+            for bi2, t2 in tb.calls():
+                p2 = callee_path(t2) or ""
+                if re.search(r"^std::char::methods::<impl char>::is_(whitespace|ascii_whitespace|control|alphabetic|numeric)$", p2):
+                    ctx.fail(clause + ".whitespace-set", "delegates to %s" % p2, "the trimming helper classifies characters with %s — not the ECMAScript StrWhiteSpaceChar set" % p2, where=tb.where(bi2), fn=tb.key)
+                if p2.startswith("core::str::<impl str>::trim"):
+                    ctx.fail(clause + ".whitespace-set", "uses %s" % p2.rsplit("::", 1)[1], "white space is trimmed with %s, not the ECMAScript StrWhiteSpaceChar set" % p2, where=tb.where(bi2), fn=tb.key)
+            for pk, pred in sorted(preds.items()):
+                whitespace_set(ctx, facts, pred, clause, cfg)
+            if not preds:
+                ctx.unread(clause + ".whitespace-set", "predicate (%s)" % cfg, "the trimming helper %s applies no character predicate of this crate: the set it removes is not read" % tb.key.split("::", 1)[1], where=tb.where(), fn=tb.key)
+            ctx.unread(clause + ".trim", "trimming helper (%s)" % cfg, "white space is removed by the hand-written loop(s) of %s: that exactly the longest prefix and suffix of white space are removed is not read" % tb.key.split("::", 1)[1], where=tb.where(), fn=tb.key)
+    elif not trims and f.back_edges():
+        # (a view with a trimming helper inlined: the loops are in the conversion itself)
+        ctx.unread(clause + ".trim", "trimming (%s)" % cfg, "the conversion calls no trimming function and has loops of its own: whether they trim the white space is not read", where=loc, fn=f.key)
+    else:
+        ctx.check(len(trims) == 1, clause + ".trim", "surrounding white space is trimmed once (%s)" % cfg, "%d trim calls" % len(trims), where=loc, fn=f.key)
     for bi, t in trims:
         p = callee_path(t)
         if p == "core::str::<impl str>::trim_matches" and len(t["args"]) == 2:
@@ -265,19 +334,7 @@ def check(ctx, facts, cfg, clause="A3"):
                 if e[0] == "agg" and e[1].get("agg") == "Closure":
                     pred = facts.body(e[1]["closure"])
             if pred is not None:
-                cs = table_charset(facts, pred)
-                if cs is None:
-                    cs = charset_of(pred)
-                if isinstance(cs, tuple) and cs and cs[0] == "calls":
-                    if re.search(r"^std::char::methods::<impl char>::is_\w+$", cs[1]):
-                        ctx.fail(clause + ".whitespace-set", "delegates to %s" % cs[1], "the white-space predicate delegates to %s — not the ECMAScript StrWhiteSpaceChar set (e.g. char::is_whitespace also accepts U+0085 and rejects U+FEFF)" % cs[1], where=pred.where(), fn=pred.key)
-                    else:
-                        ctx.unread(clause + ".whitespace-set", "predicate (%s)" % cfg, "the white-space predicate is neither a comparison chain nor a scan of a constant table (it calls %s): the set it accepts is not read" % cs[1], where=pred.where(), fn=pred.key)
-                else:
-                    want = iv_norm(ES_WS)
-                    ctx.check(cs == want, clause + ".whitespace-set", "trimmed characters = ECMAScript WhiteSpace ∪ LineTerminator (%s)" % cfg,
-                              "the white-space predicate accepts {%s}; ECMAScript's set is {%s}" % (fmt_set(cs), fmt_set(want)), where=pred.where(), fn=pred.key, nontrivial=True,
-                              sample={"accepted": fmt_set(cs)})
+                whitespace_set(ctx, facts, pred, clause, cfg)
         else:
             ctx.fail(clause + ".whitespace-set", "uses %s" % p.rsplit("::", 1)[1], "white space is trimmed with %s (Unicode White_Space), not the ECMAScript StrWhiteSpaceChar set" % p, where=f.where(bi), fn=f.key)
     # ---- decided on the path summaries of the conversion (helpers inlined): which strings are answered directly
@@ -286,12 +343,15 @@ def check(ctx, facts, cfg, clause="A3"):
         for cl_, what in ((".empty-is-zero", "empty string"), (".infinity", "Infinity spellings"), (".radix-prefixes", "radix prefixes")):
             ctx.unread(clause + cl_, "%s (%s)" % (what, cfg), "the conversion has loops or too many paths to summarise", where=loc, fn=f.key)
         return f0
-    is_trim = lambda y: y[0] == "call" and y[1] and (y[1].get("path") or "").startswith("core::str::<impl str>::trim")
+    is_trim = lambda y: y[0] == "call" and y[1] and ((y[1].get("path") or "").startswith("core::str::<impl str>::trim") or y[1].get("key") in trimmers)
 
     def str_test(key, ex):
         """("empty",) / ("eq", constant) when the atom tests the trimmed string for emptiness / equality with a constant."""
         if ex is None or key[0] not in ("pure", "cmp"):
             return None
+        return str_expr_test(ex)
+
+    def str_expr_test(ex):
         x = strip_refs(ex)
         if not expr_mentions(x, is_trim):
             return None
@@ -319,7 +379,7 @@ def check(ctx, facts, cfg, clause="A3"):
                 return float(const_value(v[1]))
         return None
     rad_keys = set(radix_parser_role(facts, f))
-    zero_paths, zero_bad, inf, inf_bad = 0, [], {}, []
+    zero_paths, zero_bad, inf, inf_bad, inf_unread = 0, [], {}, [], []
     prefixes, pref_unread, nrad_sites = {}, [], set()
     for p in w.paths:
         tests = [(str_test(k, w.exprs.get(k)), v) for k, v in p.order]
@@ -329,6 +389,32 @@ def check(ctx, facts, cfg, clause="A3"):
                 zero_bad.append(show_expr(strip_refs(p.result))[:60] if p.result else "?")
             continue
         hit = [t[1] for t, v in tests if t and t[0] == "eq" and v is True]
+        # a path that answers with what a lookup in a constant table found (taken only when it found something):
+        # one spelling per row whose test is the equality of the trimmed string with a constant
+        lk = table_lookup(facts, p.result) if p.result is not None and not hit else None
+        if lk is not None:
+            rc = _PS.canon(strip_refs(p.result))
+            guarded = False
+            for k, v in p.order:
+                ex = strip_refs(w.exprs.get(k)) if w.exprs.get(k) is not None else None
+                if k[0] == "pure" and v is True and ex is not None and ex[0] == "call" and ex[1] and (ex[1].get("path") or "").endswith("Option::<T>::is_some") and ex[2] and _PS.canon(strip_refs(ex[2][0])) == rc:
+                    guarded = True
+                if k[0] == "variant" and v == "Some" and ex is not None and _PS.canon(ex) == rc:
+                    guarded = True
+            if not guarded:
+                inf_unread.append("the result of a table lookup is returned on a path that does not ask whether it found a row")
+                continue
+            for test, val in lk:
+                t = str_expr_test(test)
+                val = strip_refs(val)
+                cv = const_value(val[1]) if val[0] == "const" else None
+                if t and t[0] == "eq" and isinstance(cv, (int, float)) and not isinstance(cv, bool):
+                    if t[1] in inf and inf[t[1]] != float(cv):
+                        inf_bad.append(t[1])
+                    inf[t[1]] = float(cv)
+                else:
+                    inf_unread.append("table row %s ⇒ %s" % (show_expr(strip_refs(test))[:60], show_expr(val)[:30]))
+            continue
         if hit:
             val = some_const(p.result)
             for k_ in hit:
@@ -368,8 +454,11 @@ def check(ctx, facts, cfg, clause="A3"):
     ctx.check(zero_paths >= 1 and not zero_bad, clause + ".empty-is-zero", "the empty (or all-white-space) string converts to 0 (%s)" % cfg,
               "no emptiness test of the trimmed string" if not zero_paths else "the empty string converts to %s" % zero_bad[:2], where=loc, fn=f.key, nontrivial=True)
     want_inf = {"Infinity": float("inf"), "+Infinity": float("inf"), "-Infinity": float("-inf")}
-    ctx.check(inf == want_inf and not inf_bad, clause + ".infinity", "only the spellings Infinity / +Infinity / -Infinity denote infinities (%s)" % cfg,
-              "string constants mapped to numbers: %s" % inf, where=loc, fn=f.key, nontrivial=True, sample={"spellings": {k: str(v) for k, v in inf.items()}})
+    if inf_unread and not inf_bad and all(want_inf.get(k_) == v_ for k_, v_ in inf.items()):
+        ctx.unread(clause + ".infinity", "Infinity spellings (%s)" % cfg, "the strings answered from a constant table were not all read (%s)" % inf_unread[0], where=loc, fn=f.key)
+    else:
+        ctx.check(inf == want_inf and not inf_bad, clause + ".infinity", "only the spellings Infinity / +Infinity / -Infinity denote infinities (%s)" % cfg,
+                  "string constants mapped to numbers: %s" % inf, where=loc, fn=f.key, nontrivial=True, sample={"spellings": {k: str(v) for k, v in inf.items()}})
     # ---- radix prefixes: every path into the digit parser is taken after two character tests that fix the prefix, with a constant radix
     rad = [(bi, t) for bi, t in f.calls() if callee_of(t) and callee_of(t).get("key") in rad_keys]
     ctx.check(len(rad_keys) == 1 and len(rad) >= 1, clause + ".radix-call", "prefixed integer literals are handed to one radix parser (%s)" % cfg, "%d radix parsers, %d call sites" % (len(rad_keys), len(rad)), where=loc, fn=f.key)
@@ -437,6 +526,206 @@ def radix_parser(ctx, facts, rp, clause, cfg):
     if len(str_arg) != 1 or len(rad_arg) != 1:
         raise Inconclusive("radix parser signature (&str, u32) not recognised")
     _RadixReader(ctx, facts, rp, clause, cfg, str_arg[0], rad_arg[0]).run()
+
+
+# ---------------------------------------------------------------------------------------------------------------------
+# the set of characters (or bytes) a predicate accepts, read on its path summaries: every atom of a path must be a test
+# of the character against constants (comparison, integer switch, ASCII class method, membership in a constant string);
+# the characters a path admits are those consistent with its atoms and with its result being true.  Which spelling
+# (|| chain, match with ranges, matches!, method calls) does not matter.  None = some atom was not read.
+# ---------------------------------------------------------------------------------------------------------------------
+ASCII_CLASSES = {
+    "is_ascii_digit": [(48, 57)], "is_ascii_hexdigit": [(48, 57), (65, 70), (97, 102)], "is_ascii_alphabetic": [(65, 90), (97, 122)],
+    "is_ascii_alphanumeric": [(48, 57), (65, 90), (97, 122)], "is_ascii_uppercase": [(65, 90)], "is_ascii_lowercase": [(97, 122)],
+    "is_ascii": [(0, 127)],
+}
+
+
+def iv_cut(ivs, sel, keep):
+    """ivs ∩ sel (keep) or ivs − sel (not keep); sel = normalised intervals."""
+    out = []
+    if keep:
+        for lo, hi in sel:
+            out.extend(iv_and(ivs, lo, hi))
+        return iv_norm(out)
+    rest = list(ivs)
+    for lo, hi in sel:
+        nxt = []
+        for a, b in rest:
+            if hi < a or lo > b:
+                nxt.append((a, b))
+                continue
+            if a <= lo - 1:
+                nxt.append((a, lo - 1))
+            if hi + 1 <= b:
+                nxt.append((hi + 1, b))
+        rest = nxt
+    return iv_norm(rest)
+
+
+def predicate_set(cb, argn):
+    """Accepted code points (normalised intervals) of a pure predicate over its parameter `argn`, or None (not read)."""
+    if cb is None:
+        return None
+    w = _PS.summarize(cb, max_paths=3000)
+    if w.overflow or not w.paths or any(p.truncated for p in w.paths):
+        return None
+
+    def isarg(x):
+        return strip_cast(x) == ("arg", argn)
+
+    def cp(x):
+        x = strip_cast(x)
+        v = const_value(x[1]) if x[0] == "const" else None
+        if isinstance(v, str) and len(v) == 1:
+            return ord(v)
+        return v if isinstance(v, int) and not isinstance(v, bool) else None
+
+    def sel_of(x):
+        """(set of code points for which x is true) or None."""
+        x = strip_refs(x)
+        if x[0] == "const" and isinstance(const_value(x[1]), bool):
+            return [(0, MAXC)] if const_value(x[1]) else []
+        if x[0] == "unop" and x[1] == "Not":
+            s_ = sel_of(x[2])
+            return None if s_ is None else iv_cut([(0, MAXC)], s_, False)
+        if x[0] == "binop" and x[1] in ("Le", "Lt", "Ge", "Gt", "Eq", "Ne"):
+            a, b, op = x[2], x[3], x[1]
+            if isarg(b) and cp(a) is not None:
+                a, b = b, a
+                op = {"Le": "Ge", "Lt": "Gt", "Ge": "Le", "Gt": "Lt", "Eq": "Eq", "Ne": "Ne"}[op]
+            if not (isarg(a) and cp(b) is not None):
+                return None
+            k = cp(b)
+            return iv_norm({"Le": [(0, k)], "Lt": [(0, k - 1)], "Ge": [(k, MAXC)], "Gt": [(k + 1, MAXC)], "Eq": [(k, k)], "Ne": [(0, k - 1), (k + 1, MAXC)]}[op])
+        if x[0] == "binop" and x[1] in ("BitOr", "BitAnd"):
+            a, b = sel_of(x[2]), sel_of(x[3])
+            if a is None or b is None:
+                return None
+            return iv_norm(a + b) if x[1] == "BitOr" else iv_cut(a, b, True)
+        if x[0] == "call" and x[1]:
+            pth = x[1].get("path") or ""
+            m = re.search(r"^(std::char::methods::<impl char>|core::num::<impl u8>|core::char::methods::<impl char>)::(is_ascii\w*)$", pth)
+            if m and m.group(2) in ASCII_CLASSES and len(x[2]) == 1 and isarg(x[2][0]):
+                return list(ASCII_CLASSES[m.group(2)])
+            if pth == "core::str::<impl str>::contains" and len(x[2]) == 2 and isarg(x[2][1]):
+                a = strip_refs(x[2][0])
+                if a[0] == "const" and isinstance(const_value(a[1]), str):
+                    return iv_norm([(ord(c), ord(c)) for c in const_value(a[1])])
+            if pth in ("core::slice::<impl [T]>::contains",) and len(x[2]) == 2 and isarg(x[2][1]):
+                a = strip_refs(x[2][0])
+                if a[0] == "const" and isinstance(const_value(a[1]), str):       # b"+-.eE"
+                    return iv_norm([(ord(c), ord(c)) for c in const_value(a[1])])
+        return None
+
+    acc = []
+    for p in w.paths:
+        ivs = [(0, MAXC)]
+        for k, v in p.atoms.items():          # (the refined values: a second switch on the same quantity narrows the atom)
+            ex = w.exprs.get(k)
+            if ex is None:
+                return None
+            if k[0] == "int":
+                if not isarg(ex):
+                    return None
+                if isinstance(v, int) and not isinstance(v, bool):
+                    ivs = iv_cut(ivs, [(v, v)], True)
+                elif isinstance(v, tuple) and v and v[0] == "not":
+                    ivs = iv_cut(ivs, iv_norm([(int(z), int(z)) for z in v[1]]), False)
+                else:
+                    return None
+                continue
+            if not isinstance(v, bool):
+                return None
+            s_ = sel_of(ex)
+            if s_ is None:
+                return None
+            ivs = iv_cut(ivs, s_, v)
+        if p.result is None:
+            return None
+        s_ = sel_of(p.result)
+        if s_ is None:
+            return None
+        acc.extend(iv_cut(ivs, s_, True))
+    return iv_norm(acc)
+
+
+# ---------------------------------------------------------------------------------------------------------------------
+# a lookup in a constant table: `TABLE.iter().find(|row| <test of row against captured values>)[.map(|row| <part of row>)]`
+# evaluated row by row (the closures are read through their path summaries with the row substituted for the parameter)
+# ---------------------------------------------------------------------------------------------------------------------
+def _subst(e, env, ups, depth=0):
+    """Substitute the closure parameter(s) (env: arg number → expression) and the captures (field i of arg 1 → ups[i])
+    and reduce projections of aggregates."""
+    if not isinstance(e, tuple) or depth > 30:
+        return e
+    if e[0] == "arg" and e[1] in env:
+        return env[e[1]]
+    if e[0] == "field" and isinstance(e[2], int) and isinstance(e[1], tuple):
+        if strip_refs(e[1]) == ("arg", 1) and ups is not None and e[2] < len(ups):
+            return ups[e[2]]
+        base = strip_refs(_subst(e[1], env, ups, depth + 1))
+        if base[0] == "agg" and not base[1].get("variant") and e[2] < len(base[2]):
+            return base[2][e[2]]
+        return ("field", base, e[2]) + tuple(e[3:])
+    out = []
+    for x in e:
+        if isinstance(x, tuple):
+            out.append(_subst(x, env, ups, depth + 1))
+        elif isinstance(x, list):
+            out.append([_subst(y, env, ups, depth + 1) if isinstance(y, tuple) else y for y in x])
+        else:
+            out.append(x)
+    return tuple(out)
+
+
+def _closure_value(facts, clo, row):
+    """The value of a straight-line closure applied to `row` (captures substituted), or None."""
+    clo = strip_refs(clo)
+    if not (clo[0] == "agg" and clo[1].get("closure")):
+        return None
+    cb = facts.body(clo[1]["closure"])
+    if cb is None:
+        return None
+    w = _PS.summarize(cb, max_paths=50)
+    if w.overflow or len(w.paths) != 1 or w.paths[0].order or w.paths[0].truncated or w.paths[0].result is None:
+        return None
+    return _subst(w.paths[0].result, {2: row}, [u for u in clo[2]])
+
+
+def table_lookup(facts, e):
+    """e = find(iter(TABLE), pred) possibly under Option::map/copied/cloned → [(pred(row), mapped row)] per row
+    (expressions with the row substituted), or None when e is not such a lookup / was not read."""
+    e = strip_refs(e)
+    maps = []
+    hops = 0
+    while e[0] == "call" and e[1] and hops < 6:
+        pth = e[1].get("path") or ""
+        if pth == "std::option::Option::<T>::map" and len(e[2]) == 2:
+            maps.append(e[2][1])
+            e = strip_refs(e[2][0])
+        elif re.search(r"Option::<&T>::(copied|cloned)$", pth) and e[2]:
+            e = strip_refs(e[2][0])
+        else:
+            break
+        hops += 1
+    if not (e[0] == "call" and e[1] and re.search(r"Iterator(>)?::find$", e[1].get("path") or "") and len(e[2]) == 2):
+        return None
+    rows = _table_rows(facts, e[2][0])
+    if rows is None:
+        return None
+    out = []
+    for row in rows:
+        test = _closure_value(facts, e[2][1], row)
+        if test is None:
+            return None
+        val = row
+        for m in reversed(maps):
+            val = _closure_value(facts, m, val)
+            if val is None:
+                return None
+        out.append((test, val))
+    return out
 
 
 def strip_cast(e):
